@@ -93,7 +93,7 @@ def gen_one(rng):
         # two consecutive lines of one market with the same publish time (e.g. prices and a definition change published in
         # the same millisecond): both are updates in the data; the second carries no scripted actions
         for m in sc["markets"]:
-            cands = [k for k in range(1, len(m["updates"])) if not m["updates"][k].get("acts") and not m["updates"][k].get("oacts") and not m["updates"][k - 1].get("acts") and not m["updates"][k - 1].get("oacts") and m["updates"][k - 1]["pt"] != (m["updates"][k - 2]["pt"] if k >= 2 else None)]
+            cands = [k for k in range(1, len(m["updates"])) if not m["updates"][k].get("acts") and not m["updates"][k].get("oacts") and not m["updates"][k - 1].get("acts") and not m["updates"][k - 1].get("oacts") and m["updates"][k - 1]["pt"] != (m["updates"][k - 2]["pt"] if k >= 2 else None) and all(m["updates"][k].get(f) == m["updates"][k - 1].get(f) for f in ("ip", "st", "mt"))]  # (same in-play flag, status and start time: the listener filters then treat both alike, which the arrival index relies on)
             if cands and rng.random() < 0.7:
                 k = rng.choice(cands)
                 m["updates"][k]["pt"] = m["updates"][k - 1]["pt"]
@@ -127,8 +127,8 @@ def digests_of(batch):
     return out
 
 
-def _sub(path, hashseed, offset):
-    env = dict(os.environ, PYTHONHASHSEED=str(hashseed), VERIF_KEEP_HASHSEED="1", VERIF_CLOCK_OFFSET=str(offset))
+def _sub(path, hashseed, offset, tz):
+    env = dict(os.environ, PYTHONHASHSEED=str(hashseed), VERIF_KEEP_HASHSEED="1", VERIF_CLOCK_OFFSET=str(offset), VERIF_FORCE_TZ=tz)
     p = subprocess.run([sys.executable, os.path.join(rt.VERIF_ROOT, "check"), "selftest", "_c14", path], env=env, stdout=subprocess.PIPE, stderr=subprocess.PIPE, text=True, timeout=600)
     if p.returncode != 0:
         raise core.HarnessError("C14 sub-process failed: %s" % p.stderr[-1500:])
@@ -162,8 +162,8 @@ def execute(scenario):
     try:
         with os.fdopen(fd, "w") as f:
             json.dump(batch, f)
-        a = _sub(path, 1, 9.5 * 3600)
-        b = _sub(path, 987654, -3 * 86400)
+        a = _sub(path, 1, 9.5 * 3600, "NZST-12NZDT,M9.5.0,M4.1.0/3")
+        b = _sub(path, 987654, -3 * 86400, "EST5EDT,M3.2.0,M11.1.0")
         out.runs += 2 * len(batch)
     finally:
         try:
@@ -173,7 +173,7 @@ def execute(scenario):
     norm = json.loads(json.dumps(base))
     for k in range(len(batch)):
         if not (norm[k] == a[k] == b[k]):
-            which = "hashseed-or-clock" if a[k] != b[k] else "checker-process-vs-fresh-interpreter"
+            which = "hashseed-clock-or-time-zone" if a[k] != b[k] else "checker-process-vs-fresh-interpreter"
             out.violate(ID, "C14.determinism", "result-differs-between-interpreters:%s" % which, batch_index=k, digests=[norm[k][0][:12], a[k][0][:12], b[k][0][:12]])
     out.digest = core.digest([x[0] for x in base])
     return out
